@@ -42,9 +42,17 @@ func vwellformed(r Dnum) bool {
 // of the larger operand, or of the result when a carry gives the result a larger exponent.
 // Exponents are kept away from the int8 limits (overflow/underflow: VerifC27AddLimits).
 //
-//symgo:harness prop=C27 tier=quick arith=int shards=16 timeout=400 ttimeout=1700 qtimeout=20000 bounds=all_16-digit_coefficients;both_signs;exponents_-100..100;exponent_difference_0..16_and_>=17;add_and_sub outside=float_conversions
+//symgo:harness prop=C27 tier=quick arith=int shards=16 timeout=400 ttimeout=1700 qtimeout=20000 bounds=all_16-digit_coefficients;both_signs;exponents_-100..100;exponent_difference_in_{0,1,2,8,15,16}_and_>=17_(thorough:_every_0..16);add_and_sub outside=float_conversions
 func VerifC27Add() {
 	d := rt.Pick("d", 18)
+	if !rt.Thorough() {
+		// quick tier: a spread of exponent differences (thorough: every one)
+		ds := []int{0, 1, 2, 8, 15, 16, 17}
+		if d >= len(ds) {
+			rt.Assume(false)
+		}
+		d = ds[d]
+	}
 	x := vfinite("x", -100, 100)
 	y := vfinite("y", -120, 100)
 	if d < 17 {
@@ -134,7 +142,7 @@ func VerifC27AddLimits() {
 // C27 mul: for all finite operands, |Mul(x,y) - x*y| <= one unit in the 16th digit of the
 // result; exponent overflow gives infinity of the right sign, underflow gives zero.
 //
-//symgo:harness prop=C27 tier=quick arith=int shards=4 timeout=400 qtimeout=60000 bounds=all_16-digit_coefficient_pairs;both_signs;all_exponents
+//symgo:harness prop=C27 tier=quick arith=int shards=8 timeout=900 qtimeout=60000 bounds=all_16-digit_coefficient_pairs;both_signs;all_exponents
 func VerifC27Mul() {
 	x := vfinite("x", -128, 127)
 	y := vfinite("y", -128, 127)
